@@ -1653,6 +1653,18 @@ func genC20(g *Gen) {
 			report(text, v, lab, key, 11, 100, 0, L())
 			report(text, v, lab, key, 11, 100, 10, L())
 		}
+		// averages that are exact ties at the third decimal (k/16 = .0625 k): round-half-even of the exact value
+		for k := 0; k <= 17; k++ {
+			text := L("17", "[1]", rep(k, func(i int) string { return L("1", Int(i&1)) }))
+			v, _ := ParseVal(text)
+			lab, _ := c20Labels(v)
+			for _, au := range [][2]string{{"16", L()}, {"2", L("3")}, {"1", L("4")}, {"64", L("-2")}, {"32", L()}, {"3", L()}, {"1", L("-1")}} {
+				avg, _ := strconv.Atoi(au[0])
+				g.Stat("exh-report-avg-ties")
+				report(text, v, lab, "", 0, 0, avg, au[1])
+			}
+		}
+		g.Exhaust = append(g.Exhaust, "averages: sizes 0..17 over AvgOf/AvgUnit combinations with quotient k/16, k/32, k/3, 2k (exact ties at the third decimal included)")
 		g.Exhaust = append(g.Exhaust, fmt.Sprintf("whole report: depth -2..6 x maxItem {-1..5,100} on %d fixed values (the struct of TestSizeStat behind a pointer and in a slice, slices of slices of length 0..5, arrays of arrays, a chain of pointers, nested interfaces, a map of slices)", len(shapesG)))
 	}
 
